@@ -247,9 +247,11 @@ impl EnvModel {
                 }
             }
         };
-        read_dir(&join(layer, b"env"), &mut m.all);
-        read_dir(&join(layer, b"env.build"), &mut m.build);
-        let launch = join(layer, b"env.launch");
+        // a layer path that is itself a link is read through it (values keep the path as given)
+        let real_layer = snap.resolve(layer, root_abs).unwrap_or_else(|| layer.to_vec());
+        read_dir(&join(&real_layer, b"env"), &mut m.all);
+        read_dir(&join(&real_layer, b"env.build"), &mut m.build);
+        let launch = join(&real_layer, b"env.launch");
         read_dir(&launch, &mut m.launch);
         for child in snap.children(&launch) {
             let full = join(&launch, &child);
